@@ -122,7 +122,7 @@ CHECKS = {
             "unchanged for 3 rounds; 60-round horizon; > 3000 deliveries without a timer step = livelock) and then continued with "
             "an injected fresh block and a broadcast transaction. Oracle: every head at the greatest initial height (+1 after the "
             "block), complete chains, transaction in every pool, no exception escaped, no connection between nodes dropped, "
-            "every node relays each block / transaction at most once.",
+            "every node relays each block / transaction at most once. Threads: a transaction broadcast from the main thread (as skepticoin-send does) while the networking thread handles a block / transaction delivery, every schedule with <= 1 (2) preemptions at source-line granularity: every peer receives it exactly once and the call does not raise.",
             "Liveness is decided as 'the fair completion reaches a fixed point within the horizon'. Reliable links; frame "
             "granularity (C11 covers fragmentation).", "DESIGN.md section 4, C10"),
     'C11': (MC, "exhaustive enumeration of all 2-way and 3-way cuts of framed and corrupted streams against a reference framer",
